@@ -450,11 +450,54 @@ def rule_r10(ctx):
                  "of an IPv6 literal) leaves the rest of the host as it was written, and two spellings of one address parse to "
                  "different hosts", floor=1)
     f = ctx.prog.need("nni_url_parse_inline_inner", "core/url.c")
-    stores = [t for t in f.assigns() if t.node["lhs"].get("k") == "idx" and "u_hostname" in show(t.node["lhs"]) and
-              any(m.get("k") == "call" and m.get("fn") == "tolower" or "tolower" in (m.get("m") or ()) for m in walk(f.expand(t.node["rhs"])))]
-    G.need_sites(stores, "tolower store into u_hostname", f)
+
+    def is_fold(t):
+        return any(m.get("k") == "call" and m.get("fn") == "tolower" or "tolower" in (m.get("m") or ()) for m in walk(f.expand(t.node["rhs"])))
+    # cursors over the host: locals whose every definition is the host pointer or the cursor moved on
+    def over_host(t):
+        """the store goes through a local that, where the store is made, can only hold the host pointer (moved on or not)"""
+        e = t.node["lhs"].get("e")
+        e = f.expand(e) if e is not None else None
+        if e is None or e.get("k") != "var":
+            return False
+        rd = G.reaching_defs(f, e["n"], (t.b, t.i))
+        return bool(rd) and all(d is not None and ("u_hostname" in show(d) or any(m.get("k") == "var" and m["n"] == e["n"] for m in walk(d)))
+                                for _, d in rd)
+    stores = [t for t in f.assigns() if t.node["lhs"].get("k") == "idx" and "u_hostname" in show(t.node["lhs"]) and is_fold(t)]
+    pstores = [t for t in f.assigns() if t.node["lhs"].get("k") == "un" and t.node["lhs"].get("op") == "*" and is_fold(t) and over_host(t)]
+    if not stores and not pstores:
+        ctx.fail(r, f, "nothing folds the host to lower case", f.line,
+                 "%s has no store of tolower() into u_hostname (directly or through a cursor over it): the host keeps the "
+                 "case it was written in" % f.name)
+        return
     dom = f.dominators()
     facts = G.edge_facts(f)
+    live = {b for (b, i) in f.reach((f.entry, 0))}
+
+    def loop_head(t):
+        heads = [h for h in dom[t.b] if any(p_ in live and h in dom[p_] for p_ in f.blocks[h].preds)]
+        heads = [h for h in heads if (h, 0) in f.reach((t.b, t.i + 1))]
+        return max(heads, key=lambda x: len(dom[x])) if heads else None
+    # every way to a successful return runs one of the folding loops (their heads): a branch of the host scan that has no
+    # folding of its own leaves that form of host (an IPv6 literal) in the case it was written
+    heads = {(loop_head(t), 0) for t in stores + pstores if loop_head(t) is not None}
+    okrets = [(t.b, t.i) for t in f.sites() if t.node.get("k") == "ret" and t.node.get("e") is not None and const_of(f.expand(t.node["e"])) == 0]
+    hostset = [(t.b, t.i + 1) for t in f.assigns() if t.node["lhs"].get("k") == "mem" and t.node["lhs"].get("f") == "u_hostname" and
+               not is_null(f.expand(t.node["rhs"]))]
+    if not hostset:
+        raise AnalysisBroken("%s no longer stores u_hostname" % f.name)
+    if heads and okrets:
+        off = None
+        for hs in hostset[:1]:      # from where the host is first known
+            off = off or G.must_pass(f, hs, heads, stop=okrets)
+        if off is not None:
+            ctx.fail(r, f, "a successful parse that never folds the host", f.line_of(*off),
+                     "%s can return success (line %s) on a path that runs none of the loops storing tolower() into the host "
+                     "(lines %s): for that form of host the case is kept, and two spellings of one address parse to different "
+                     "hosts (path %s)" % (f.name, f.line_of(*off), ", ".join(str(t.line) for t in stores + pstores),
+                                          ">".join(str(x) for x in G.path_lines(f, hostset[0], off, blocked=heads)[-8:])))
+        else:
+            r.ob(f, "every successful parse runs a loop that folds the host")
     for t in stores:
         # the innermost loop around the store: a head h that dominates the store's block and is reached back from it
         live = {b for (b, i) in f.reach((f.entry, 0))}      # glibc's tolower() macro leaves unreachable blocks behind
